@@ -280,8 +280,11 @@ pub fn gen_odd_valid_frames(rng: &mut Rng, dest: u16, src: u16, from_master: boo
                 let mut p = vec![flags | (tseq & 0x3F)];
                 // something that looks like an application fragment
                 p.push(0xC0 | rng.below(16) as u8);
-                p.push(*rng.pick(&[0u8, 1, 2, 3, 4, 5, 13, 20, 21, 23, 24, 129, 130]));
-                let k = rng.urange(0, 40);
+                let func = *rng.pick(&[0u8, 1, 2, 3, 4, 5, 13, 20, 21, 23, 24, 129, 130]);
+                p.push(func);
+                // (never the two octets of the closing probe itself: a byte-identical earlier fragment - by broadcast, say - makes
+                // the probe a retransmission, which is answered like the original, i.e. possibly not at all)
+                let k = rng.urange(if func == 23 { 1 } else { 0 }, 40);
                 p.extend(rng.bytes(k));
                 p
             }
@@ -656,6 +659,10 @@ pub struct ProbeOracle {
     garbage_on_link: bool,
     /// a well-formed READ from the master that has not been answered yet: (sequence number, when it was sent)
     unanswered_read: Option<(u8, u64)>,
+    /// application fragments sent to the outstation on this connection (the closing probe is not judged if it repeats one:
+    /// a retransmission is answered like the original)
+    sent_on_connection: Vec<Vec<u8>>,
+    probe_repeats_earlier_fragment: bool,
 }
 
 impl ProbeOracle {
@@ -687,6 +694,8 @@ impl ProbeOracle {
             confirm_timeout: case.cfg.confirm_timeout_ms,
             garbage_on_link: false,
             unanswered_read: None,
+            sent_on_connection: Vec::new(),
+            probe_repeats_earlier_fragment: false,
         }
     }
 }
@@ -700,6 +709,13 @@ impl Oracle for ProbeOracle {
         if step.connected || step.disconnected {
             self.garbage_on_link = false;
             self.unanswered_read = None;
+            self.sent_on_connection.clear();
+        }
+        if let Some(sent) = &step.sent {
+            if Some(step.op_index) == self.probe_app.map(|i| i + 1) && self.sent_on_connection.contains(&sent.bytes) {
+                self.probe_repeats_earlier_fragment = true;
+            }
+            self.sent_on_connection.push(sent.bytes.clone());
         }
         match &step.op {
             Op::WireBytes(_) => {
@@ -822,7 +838,9 @@ impl Oracle for ProbeOracle {
                 "after the hostile input had stopped and every timeout had lapsed, a link status request was not answered".to_string(),
             ));
         }
-        if !self.app_answered {
+        if !self.app_answered && self.probe_repeats_earlier_fragment {
+            *self.counters.entry("probe.closing_probe_was_a_retransmission".to_string()).or_insert(0) += 1;
+        } else if !self.app_answered {
             return Some(Violation::new(
                 "C01/outstation-stopped-serving",
                 "request",
